@@ -25,7 +25,8 @@ structure TokSpec (st : IState) (r : Except Panic IState) : Prop where
 structure RuleSpec (st : IState) (silent : Bool) (r : RuleRes) : Prop where
   noFuel : r ≠ .error .fuel
   ok : ∀ o st', r = .ok (o, st') →
-    Frame st st' ∧ MemoInv st' ∧ (silent = true → Quiet st st') ∧ (o = none → st'.pos = st.pos) ∧
+    Frame st st' ∧ MemoInv st' ∧ (silent = true → Quiet st st' ∧ st'.pos = st.pos) ∧
+    (o = none → st'.pos = st.pos) ∧
     (∀ len, o = some len → st.pos < st'.pos + len)
 
 /-- `skip` meets its contract on every state at level `lvl` with the given `posMax` whose window
@@ -419,7 +420,7 @@ theorem linkRule_spec {cfg : Cfg} {skip tok : IState → Except Panic IState} {l
     refine ⟨by simp, ?_⟩
     intro o st' h
     simp only [Except.ok.injEq, Prod.mk.injEq] at h; obtain ⟨rfl, rfl⟩ := h
-    exact ⟨a, c, fun _ => b, fun _ => d, by intro len h; simp at h⟩
+    exact ⟨a, c, fun _ => ⟨b, d⟩, fun _ => d, by intro len h; simp at h⟩
   · next res st1 he =>
     obtain ⟨a, b, c, d, e⟩ := hpl.2 _ _ he
     have hres := e res rfl
@@ -430,7 +431,7 @@ theorem linkRule_spec {cfg : Cfg} {skip tok : IState → Except Panic IState} {l
       · refine ⟨by simp, ?_⟩
         intro o st' h
         simp only [Except.ok.injEq, Prod.mk.injEq] at h; obtain ⟨rfl, rfl⟩ := h
-        refine ⟨a, c, fun _ => b, by intro h; simp at h, ?_⟩
+        refine ⟨a, c, fun _ => ⟨b, d⟩, by intro h; simp at h, ?_⟩
         intro len h
         simp only [Option.some.injEq] at h; subst h
         have h1 := hres.labelStart; have h2 := hres.labelLe; have h3 := hres.endGt
@@ -458,8 +459,7 @@ theorem linkRule_spec {cfg : Cfg} {skip tok : IState → Except Panic IState} {l
           · next e4 he4 =>
             refine ⟨?_, by intro o st' h; simp at h⟩
             intro h; simp only [Except.error.injEq] at h; subst h; exact liftR_ne_fuel _ he4
-          · simp only
-            split
+          · split
             · exact ⟨by simp, by intro o st' h; simp at h⟩
             · next hnu =>
               refine ⟨by simp, ?_⟩
@@ -497,7 +497,7 @@ theorem ruleLink_spec {cfg : Cfg} {skip tok : IState → Except Panic IState} {l
     · refine ⟨by simp, ?_⟩
       intro o st' h
       simp only [Except.ok.injEq, Prod.mk.injEq] at h; obtain ⟨rfl, rfl⟩ := h
-      exact ⟨Frame.refl _, hm, fun _ => Quiet.refl _, fun _ => rfl, by intro len h; simp at h⟩
+      exact ⟨Frame.refl _, hm, fun _ => ⟨Quiet.refl _, rfl⟩, fun _ => rfl, by intro len h; simp at h⟩
     · exact linkRule_spec hskip fuel _ _ _ st silent htok hm hl hp hn hL
 
 theorem ruleImage_spec {cfg : Cfg} {skip tok : IState → Except Panic IState} {lvl pm L : Nat}
@@ -515,7 +515,7 @@ theorem ruleImage_spec {cfg : Cfg} {skip tok : IState → Except Panic IState} {
   · refine ⟨by simp, ?_⟩
     intro o st' h
     simp only [Except.ok.injEq, Prod.mk.injEq] at h; obtain ⟨rfl, rfl⟩ := h
-    exact ⟨Frame.refl _, hm, fun _ => Quiet.refl _, fun _ => rfl, by intro len h; simp at h⟩
+    exact ⟨Frame.refl _, hm, fun _ => ⟨Quiet.refl _, rfl⟩, fun _ => rfl, by intro len h; simp at h⟩
 
 /-! ## the chain -/
 
@@ -524,7 +524,7 @@ theorem RuleSpec.ofSimple {st : IState} {silent : Bool} {r : SRes} (hm : MemoInv
   refine ⟨liftR_ne_fuel _, ?_⟩
   intro o st' hr
   have hs := h o st' (liftR_ok.mp hr)
-  refine ⟨hs.frame, ?_, hs.quiet, fun _ => hs.pos, ?_⟩
+  refine ⟨hs.frame, ?_, fun h => ⟨hs.quiet h, hs.pos⟩, fun _ => hs.pos, ?_⟩
   · intro k v hkv; rw [hs.cache] at hkv; exact hm k v hkv
   · intro len hl; have := hs.prog len hl; rw [hs.pos]; omega
 
@@ -547,7 +547,7 @@ theorem runRule_spec {cfg : Cfg} {skip tok : IState → Except Panic IState} {lv
     refine ⟨by simp, ?_⟩
     intro o st' h
     simp only [Except.ok.injEq, Prod.mk.injEq] at h; obtain ⟨rfl, rfl⟩ := h
-    exact ⟨Frame.refl _, hm, fun _ => Quiet.refl _, fun _ => rfl, by intro len h; simp at h⟩
+    exact ⟨Frame.refl _, hm, fun _ => ⟨Quiet.refl _, rfl⟩, fun _ => rfl, by intro len h; simp at h⟩
   | autolink => exact RuleSpec.ofSimple hm (fun _ _ h => ruleAutolink_simple h)
   | entity => exact RuleSpec.ofSimple hm (fun _ _ h => ruleEntity_simple h)
 
@@ -565,7 +565,7 @@ theorem firstRule_spec {run : RuleId → IState → RuleRes} {silent : Bool} {lv
     refine ⟨by simp [firstRule], ?_⟩
     intro o st' h
     simp only [firstRule, Except.ok.injEq, Prod.mk.injEq] at h; obtain ⟨rfl, rfl⟩ := h
-    exact ⟨Frame.refl _, hm, fun _ => Quiet.refl _, fun _ => rfl, by intro len h; simp at h⟩
+    exact ⟨Frame.refl _, hm, fun _ => ⟨Quiet.refl _, rfl⟩, fun _ => rfl, by intro len h; simp at h⟩
   | cons r rs ih =>
     intro st hm hl hp hpos
     have h1 := hrun r st hm hl hp hpos
@@ -585,7 +585,7 @@ theorem firstRule_spec {run : RuleId → IState → RuleRes} {silent : Bool} {lv
       refine ⟨h2.noFuel, ?_⟩
       intro o st' h
       obtain ⟨a', b', c', d', e'⟩ := h2.ok _ _ h
-      refine ⟨a.trans a', b', fun hs => (c hs).trans (c' hs), ?_, ?_⟩
+      refine ⟨a.trans a', b', fun hs => ⟨(c hs).1.trans (c' hs).1, by rw [(c' hs).2, (c hs).2]⟩, ?_, ?_⟩
       · intro ho; rw [d' ho, d rfl]
       · intro len hl'; have := e' len hl'; rw [d rfl] at this; exact this
 
@@ -607,7 +607,7 @@ theorem silentBumped_spec {run : IState → Bool → RuleRes} {st : IState}
       simp only [Except.ok.injEq, Prod.mk.injEq] at hh; obtain ⟨rfl, rfl⟩ := hh
       refine ⟨⟨a.src, a.srcmap, a.posMax, ?_, a.linkLevel⟩, b, ?_, d, e⟩
       · simp only; rw [hlev]; simp
-      · intro _; have := c rfl; exact ⟨this.children, this.bottoms⟩
+      · intro _; have := c rfl; exact ⟨⟨this.1.children, this.1.bottoms⟩, this.2⟩
 
 /-! ## one step of each loop -/
 
@@ -698,12 +698,12 @@ theorem skipStep_spec {cfg : Cfg} {skip tok : IState → Except Panic IState} {L
     intro st' h
     simp only [Except.ok.injEq] at h; subst h
     have hlt := e len rfl
-    have hq := c rfl
+    have hq := (c rfl).1
     exact ⟨⟨a.src, a.srcmap, a.posMax, a.level, a.linkLevel⟩, ⟨hq.children, hq.bottoms⟩,
       MemoInv.insert b hlt, hlt⟩
   · next st1 he =>
     obtain ⟨a, b, c, d, _⟩ := hok.ok _ _ he
-    have hq := c rfl
+    have hq := (c rfl).1
     unfold firstChar
     split
     · next e2 he2 =>
